@@ -3,8 +3,8 @@ import os
 from framework import REPO, ROOT
 from props import C09 as e3
 
-TIE = ["Nsq.Tie.ProtoHttp"]
-PROPS = ["Nsq.Props.C10"]
+TIE = ["Nsq.Tie.ProtoHttp", "Nsq.Tie.ProtoHttpFull"]
+PROPS = ["Nsq.Props.C10", "Nsq.Props.C10Full"]
 
 
 def full_leg(ctx, binp, corr_broken):
